@@ -4,12 +4,18 @@
 use crate::run::{Env, RunResult, Sub};
 
 pub mod c01;
+pub mod c02;
+pub mod c09;
+pub mod c10;
 
-pub const ALL: &[&str] = &["C01"];
+pub const ALL: &[&str] = &["C01", "C02", "C09", "C10"];
 
 pub fn all_subs() -> Vec<Sub> {
     let mut v = Vec::new();
     v.extend(c01::subs());
+    v.extend(c02::subs());
+    v.extend(c09::subs());
+    v.extend(c10::subs());
     v
 }
 
@@ -24,6 +30,9 @@ pub fn static_prop(p: &str) -> Option<&'static str> {
 pub fn run(env: &mut Env) -> Option<RunResult> {
     Some(match env.prop {
         "C01" => c01::run(env),
+        "C02" => c02::run(env),
+        "C09" => c09::run(env),
+        "C10" => c10::run(env),
         _ => return None,
     })
 }
@@ -39,16 +48,38 @@ pub struct Meta {
 
 const COMMON_ASSUME: &str = "harness generators, wire model, reference decoder (written from the OASIS specs) and the pinned grammar of DESIGN.md §5 are trusted";
 
+fn m(level: &'static str, rule: &'static str, assumptions: &'static [&'static str]) -> Meta {
+    Meta { level, rule, assumptions, two_profiles: false, compare_digests: false, exhaustive_when_complete: false }
+}
+
+const BOUNDS: &str = "field lengths <= 65,535; user-property lists <= 6; topic lists <= 8";
+
 pub fn meta(prop: &str) -> Meta {
     match prop {
-        "C01" => Meta {
-            level: "exploration",
-            rule: "tape-generated valid packets of every type (proptest, 16 shards) encoded and decoded by the blocking, async and poll front-ends; a case is non-trivial when its encoding is longer than 4 bytes (carries a variable-length field, property section or code list); distinct by FNV-1a hash of the encoding",
-            assumptions: &[COMMON_ASSUME, "field lengths <= 65,535; user-property lists <= 6; topic lists <= 8"],
-            two_profiles: false,
-            compare_digests: false,
-            exhaustive_when_complete: false,
+        "C01" => m(
+            "exploration",
+            "tape-generated valid packets of every type (proptest, 16 shards) encoded and decoded by the blocking, async and poll front-ends; a case is non-trivial when its encoding is longer than 4 bytes (carries a variable-length field, property section or code list); distinct by FNV-1a hash of the encoding",
+            &[COMMON_ASSUME, BOUNDS],
+        ),
+        "C02" => Meta {
+            two_profiles: true,
+            compare_digests: true,
+            ..m(
+                "exploration",
+                "tape-generated valid packets and every separately encodable part of them (bodies, wills, property sets, protocol), measured bytes vs encode_len and vs the header's remaining length (parsed by the harness), through a Vec and a one-byte-per-write sink; PUBLISH sized onto every header-width boundary; oversize payloads and property sections must be refused; run under the relcheck (debug assertions + overflow checks) and release profiles and the two digests of all encodings compared. Non-trivial: encoding longer than 4 bytes, or a boundary/oversize construction; distinct by hash of the encoding / by construction",
+                &[COMMON_ASSUME, BOUNDS],
+            )
         },
-        _ => Meta { level: "exploration", rule: "", assumptions: &[], two_profiles: false, compare_digests: false, exhaustive_when_complete: false },
+        "C09" => m(
+            "exploration",
+            "tape-generated valid packets x sink behaviours (Vec, exactly sized Cursor, one byte per write, scripted Accept(k)/Pending); encode() twice, encode_async into each sink, VarBytes contents, and control byte ++ var-int ++ streamed body are compared byte for byte. Non-trivial: packet longer than 4 bytes under a script with a partial write or a Pending; distinct by hash of (encoding, script)",
+            &[COMMON_ASSUME, BOUNDS],
+        ),
+        "C10" => m(
+            "exploration",
+            "tape-generated valid packets are encoded by the library and decoded by the harness' reference decoder (written from the OASIS specs); the recovered wire-level values must equal project(packet), a name-keyed spec-number mapping that never uses `as u8`. Non-trivial: encoding longer than 4 bytes; distinct by hash of the encoding. Every reason/return code, property id per context and protocol level is required to have been exercised",
+            &[COMMON_ASSUME, BOUNDS],
+        ),
+        _ => m("exploration", "", &[]),
     }
 }
